@@ -463,8 +463,12 @@ func (db *contractDB) loadContractFile(path, pkgPath string) error {
 					cl.Kind = "loopinv"
 				case "decreases":
 					cl.Kind = "loopdec"
+				case "counts":
+					// loop N counts VAR, LO, HI: the loop visits VAR = LO, LO+1, ..., HI-1, each once: VAR is LO when the loop
+					// is entered, grows by one on every way round, and the loop is left only by its own test, with VAR >= HI
+					cl.Kind = "loopcount"
 				default:
-					return fail("loop N invariant|decreases expr")
+					return fail("loop N invariant|decreases|counts expr")
 				}
 				cl.Src = strings.TrimSpace(strings.SplitN(rest, f[1], 2)[1])
 			case "safety":
@@ -510,7 +514,7 @@ func (db *contractDB) loadContractFile(path, pkgPath string) error {
 				cur.HeapWF = true
 				continue
 			}
-			if cl.Kind == "decreases" || cl.Kind == "loopdec" {
+			if cl.Kind == "decreases" || cl.Kind == "loopdec" || cl.Kind == "loopcount" {
 				for _, part := range splitTop(cl.Src, ',') {
 					e, err := parseCExpr(part)
 					if err != nil {
